@@ -243,18 +243,10 @@ func (s *Stream) next(ctx context.Context, block bool) bool {
 
 		// await next event
 		verifAwait("stream.wait", s, func() bool { return verifReady("stream.wait", verifSignalReady(signal), ctx.Err() != nil) })
-		switch verifPick("stream.wait", len(signal) > 0, ctx.Err() != nil) {
-		case 1:
-			<-signal
-			continue
-		case 2:
-			signal = nil
-		}
-		if verifBoth(verifSignalReady(signal), ctx.Err() != nil) {
-			signal = nil
-		}
+		verifPick("stream.wait", verifSignalReady(signal), ctx.Err() != nil)
 		select {
 		case _, ok := <-signal:
+			verifTook("stream.wait", 1)
 			if !ok {
 				// close stream
 				s.mutex.Lock()
@@ -264,6 +256,7 @@ func (s *Stream) next(ctx context.Context, block bool) bool {
 				return false
 			}
 		case <-ctx.Done():
+			verifTook("stream.wait", 2)
 			// set error
 			s.mutex.Lock()
 			if s.error == nil {
